@@ -6,6 +6,8 @@ verus! {
 pub type Word = [Felt; 4];
 /// miden-crypto constant (external): a word is four field elements
 pub const WORD_SIZE: usize = 4;
+/// miden-crypto constant (external): the all-zero word
+pub exec const EMPTY_WORD: Word ensures EMPTY_WORD[0].val() == 0, EMPTY_WORD[1].val() == 0, EMPTY_WORD[2].val() == 0, EMPTY_WORD[3].val() == 0 { [ZERO; 4] }
 #[verifier::external_body] pub struct MerkleError { _p: u8 }
 #[verifier::external_body] pub struct ProverError { _p: u8 }
 #[verifier::external_body] pub struct QuadFelt { _p: u8 }
